@@ -516,6 +516,68 @@ def f2_call_boundary(ctx: Ctx):
 # ----------------------------------------------------------------------
 # F3 strict helpers
 
+def t4_min_max_ties(ctx: Ctx):
+    """`min` / `max` follow IEEE 754-2019 minimum / maximum: NaN propagates and a tie between zeros is decided by sign (-0
+    for min, +0 for max) whatever the order of the operands.  An integer literal reaches the helpers as a Fraction, whose
+    zero is +0.  `_unchecked_min` / `_unchecked_max` are evaluated, from their source, on every ordered pair and triple
+    drawn from {-1, -0, +0 as a Float, 0 as a Fraction, 1 as a Float, 1 as a Fraction} and compared with that rule."""
+    from itertools import product
+
+    from ..minipy import Interp, Obj
+
+    class Num(Obj):
+        """A stand-in number: kind Float / Fraction, value and sign of zero; compares by value like the real classes."""
+
+        def _v(self, o):
+            return o.fields['val'] if isinstance(o, Num) else o
+
+        def __eq__(self, o):
+            return self.fields['val'] == self._v(o)
+
+        def __ne__(self, o):
+            return not self.__eq__(o)
+
+        def __lt__(self, o):
+            return self.fields['val'] < self._v(o)
+
+        def __gt__(self, o):
+            return self.fields['val'] > self._v(o)
+
+        def __le__(self, o):
+            return self.fields['val'] <= self._v(o)
+
+        def __ge__(self, o):
+            return self.fields['val'] >= self._v(o)
+
+        __hash__ = Obj.__hash__
+    pool = {
+        '-1.0': Num('Float', val=-1, s=True, isnan=False), '-0.0': Num('Float', val=0, s=True, isnan=False), '+0.0': Num('Float', val=0, s=False, isnan=False),
+        '0': Num('Fraction', val=0), '1.0': Num('Float', val=1, s=False, isnan=False), '1': Num('Fraction', val=1),
+    }
+    neg = lambda k: k in ('-1.0', '-0.0')  # noqa: E731
+    mod = ctx.repo.module(BYTE)
+    funcs = {s.name: s for s in mod.tree.body if isinstance(s, ast.FunctionDef)}
+    n = 0
+    for name, pick_neg in (('_unchecked_min', True), ('_unchecked_max', False)):
+        fn = funcs[name]
+        bad = None
+        for k in (2, 3):
+            for keys in product(pool, repeat=k):
+                got = Interp(funcs).call_function(fn, [[pool[x] for x in keys]])
+                vals = [pool[x].fields['val'] for x in keys]
+                best = min(vals) if pick_neg else max(vals)
+                cands = [x for x in keys if pool[x].fields['val'] == best]
+                want_neg = any(neg(x) for x in cands) if pick_neg else all(neg(x) for x in cands)
+                got_key = next(x for x in keys if pool[x] is got)
+                n += 1
+                if (got.fields['val'] != best or neg(got_key) != want_neg) and bad is None:
+                    bad = f'{name[11:]}({", ".join(keys)}) gives {got_key}; the rule gives {"-" if want_neg else "+"}{abs(best)}'
+        ctx.check(bad is None, BYTE, fn, name, f'{name[11:]}: value by order, zero ties by sign, whatever the operand order and kind',
+                  (bad or '') + ' -- an integer literal 0 is a Fraction (+0): min(0, -0.0) and min(-0.0, 0) must both be -0.0')
+    if n < 400:
+        raise ShapeError(f'only {n} operand tuples evaluated')
+
+
 def f3_strict_helpers(ctx: Ctx):
     def ret_template(q):
         fn = ctx.fn(BYTE, q)
@@ -673,6 +735,7 @@ RULES = [
     Rule('C04.P1', 'with-block shape: try [stash, REAL, bind] + body, finally restore, no handlers', p1_with_block, 6, 'P,F'),
     Rule('C04.T2', 'callee context: declared, else passed, else IEEE double', t2_func_ctx, 7, 'T'),
     Rule('C04.T3', 'boundary table: a Python bool/int/float/RealFloat/Fraction argument enters as exactly the number it is', scalar_arms, 8, 'T'),
+    Rule('C04.T4', 'min / max: NaN first, value by order, a tie of zeros by sign (-0 for min, +0 for max) whatever the operand order and kind', t4_min_max_ties, 2, 'T'),
     Rule('C04.F2', 'FPy-to-FPy calls share arguments; nothing rounds on entry; boundary conversion only when convert', f2_call_boundary, 6, 'F'),
     Rule('C04.F3', 'strict helpers are used for index, slice, zip, len, any/all, min/max, ==, orderings, range', f3_strict_helpers, 15, 'F'),
 ]
@@ -680,6 +743,10 @@ RULES = [
 from ..selftest import Mutant  # noqa: E402
 
 MUTANTS = [
+    Mutant('zero-tie-needs-two-floats', BYTE, "        elif x == result and _is_negative(x) and not _is_negative(result):", "        elif x == result and isinstance(x, Float) and isinstance(result, Float) and x.s and not result.s:", 'C04.T4',
+           'finding F54 before its repair: min(0, -0.0) is +0.0 while min(-0.0, 0) is -0.0'),
+    Mutant('max-prefers-negative-zero', BYTE, "        elif x == result and not _is_negative(x) and _is_negative(result):", "        elif x == result and _is_negative(x) and not _is_negative(result):", 'C04.T4'),
+    Mutant('min-keeps-the-first-of-a-tie', BYTE, "        elif x == result and _is_negative(x) and not _is_negative(result):\n            result = x  # x is -0, result is +0 → prefer -0 for min\n", "", 'C04.T4'),
     Mutant('int-argument-through-double', VALUE, "        case int():\n            return Float.from_int(arg, ctx=INTEGER, checked=False)\n        case float():\n            return Float.from_float(arg, ctx=FP64, checked=False)",
            "        case int() | float():\n            return Float.from_float(float(arg), ctx=FP64, checked=False)", 'C04.T3', 'seeded change C04c'),
     Mutant('int-argument-rounded-to-single', VALUE, "            return Float.from_int(arg, ctx=INTEGER, checked=False)", "            return Float.from_int(arg, ctx=FP32, checked=False)", 'C04.T3'),
